@@ -290,6 +290,17 @@ func (g *SQLGen) Select5(t *model.Table) *proto.NStmt {
 			used[o.name] = true
 			n.OrderBy = append(n.OrderBy, proto.NOrder{Col: proto.Operand{Col: o.name}, Desc: r.Bool()})
 		}
+		if len(n.OrderBy) > 0 && r.Chance(1, 6) {
+			// a key named a second time, further right, with a direction of
+			// its own: legal, and without effect - the first mention decides
+			j := r.Intn(len(n.OrderBy))
+			rep := proto.NOrder{Col: n.OrderBy[j].Col, Desc: r.Bool()}
+			if r.Bool() {
+				rep.Desc = !n.OrderBy[j].Desc
+			}
+			at := r.Range(j+1, len(n.OrderBy))
+			n.OrderBy = append(n.OrderBy[:at], append([]proto.NOrder{rep}, n.OrderBy[at:]...)...)
+		}
 	}
 	switch r.Intn(4) {
 	case 0:
